@@ -489,7 +489,14 @@ AnyP::Uri::parse(const HttpRequestMethod& method, const SBuf &rawUrl)
             if (t && *t == ':') {
                 *t = '\0';
                 ++t;
-                foundPort = atoi(t);
+                // digits only: atoi() would also accept a sign and trailing
+                // garbage, and wraps values that do not fit in an int
+                foundPort = 0;
+                const char *digit = t;
+                for (; xisdigit(*digit) && foundPort <= 65535; ++digit)
+                    foundPort = foundPort * 10 + (*digit - '0');
+                if (*digit != '\0')
+                    foundPort = -1; // rejected by the port range check below
             }
         }
 
